@@ -19,6 +19,7 @@ type pairOpts struct {
 	halfLattice    bool // segment endpoints on the half-integer lattice
 	random         int  // random pairs (total over all shards)
 	families       int  // explicit contact families (total)
+	large          int  // pairs with a ring of >= 34 vertices (index splits) or a >= 16-point shape inside a hole
 }
 
 // corpusVariant returns the v-th encoding variant of a corpus ring (v < 8):
@@ -261,4 +262,83 @@ func parsePairCase(raw json.RawMessage) (a, b *exact.Shape, m map[string]json.Ra
 	a, ok1 := unsj(ja)
 	b, ok2 := unsj(jb)
 	return a, b, m, ok1 && ok2
+}
+
+// largePairs draws pairs in which one shape is big enough for the quadtree to
+// split (more than 32 segments) or in which a shape of at least 16 points
+// sits inside a hole and touches its boundary.
+func largePairs(c *mon.Ctx, o pairOpts, item *int, sink pairSink) {
+	for i := 0; i < o.large; i++ {
+		*item++
+		if !c.Mine(*item) {
+			continue
+		}
+		r := c.SubRng("large", i)
+		var a, b *exact.Shape
+		fam := "large"
+		switch i % 4 {
+		case 0, 1: // big ring as polygon (optionally with small holes), contact-biased partner
+			ring := gen.RandBigRing(r)
+			a = &exact.Shape{Kind: exact.KPoly, Ext: ring}
+			if r.Intn(3) == 0 {
+				a.Holes = gen.AddHoles(r, ring, 2)
+			}
+			b = gen.RandShapeNear(r, kinds4[(i/4)%4], a, 1)
+			// partners through the centre lines of the box: where a split node's mid lines are
+			if r.Intn(3) == 0 {
+				mn, mx := gen.Box(ring)
+				if (mn.X+mx.X)%2 == 0 && (mn.Y+mx.Y)%2 == 0 {
+					mid := exact.P{X: (mn.X + mx.X) / 2, Y: (mn.Y + mx.Y) / 2}
+					switch r.Intn(3) {
+					case 0:
+						b = &exact.Shape{Kind: exact.KPoint, Pts: []exact.P{{X: ring[r.Intn(len(ring))].X, Y: mid.Y}}}
+					case 1:
+						b = &exact.Shape{Kind: exact.KLine, Pts: []exact.P{{X: mn.X - gen.U, Y: mid.Y}, {X: mid.X, Y: mid.Y}, {X: mid.X, Y: mx.Y + gen.U}}}
+					default:
+						b = &exact.Shape{Kind: exact.KRect, Pts: []exact.P{{X: mn.X, Y: mn.Y}, mid}}
+					}
+				}
+			}
+			fam = "large-ring"
+		case 2: // big ring as the partner (as line or polygon) of a smaller shape
+			ring := gen.RandBigRing(r)
+			if r.Intn(2) == 0 {
+				b = &exact.Shape{Kind: exact.KPoly, Ext: ring}
+			} else {
+				b = &exact.Shape{Kind: exact.KLine, Pts: []exact.P(ring)}
+			}
+			a = gen.RandShapeNear(r, kinds4[(i/4)%4], b, 2)
+			fam = "large-partner"
+		default: // a shape of >= 16 points inside a hole, touching it
+			rad := int64(2 + r.Intn(4))
+			cx, cy := r.Int63n(9)-4, r.Int63n(9)-4
+			hole := exact.Ring{{X: (cx - rad) * gen.U, Y: (cy - rad) * gen.U}, {X: (cx + rad) * gen.U, Y: (cy - rad) * gen.U}, {X: (cx + rad) * gen.U, Y: (cy + rad) * gen.U}, {X: (cx - rad) * gen.U, Y: (cy + rad) * gen.U}}
+			frame := exact.Ring{{X: (cx - rad - 3) * gen.U, Y: (cy - rad - 3) * gen.U}, {X: (cx + rad + 3) * gen.U, Y: (cy - rad - 3) * gen.U}, {X: (cx + rad + 3) * gen.U, Y: (cy + rad + 3) * gen.U}, {X: (cx - rad - 3) * gen.U, Y: (cy + rad + 3) * gen.U}}
+			if r.Intn(2) == 0 {
+				hole = gen.Reverse(hole)
+			}
+			a = &exact.Shape{Kind: exact.KPoly, Ext: frame, Holes: []exact.Ring{gen.Rotate(hole, r.Intn(4))}}
+			// star of 16..24 vertices on the half lattice inside the hole's box
+			inner := gen.RandStar(r, 16+r.Intn(9), 2*rad-int64(r.Intn(2)), 2*cx, 2*cy)
+			for k := range inner {
+				inner[k] = exact.P{X: inner[k].X / 2, Y: inner[k].Y / 2}
+			}
+			if !inner.Simple() {
+				continue
+			}
+			if r.Intn(2) == 0 {
+				b = &exact.Shape{Kind: exact.KPoly, Ext: inner}
+			} else {
+				b = &exact.Shape{Kind: exact.KLine, Pts: []exact.P(gen.Rotate(inner, r.Intn(len(inner))))}
+			}
+			if r.Intn(2) == 0 {
+				a, b = b, a
+			}
+			fam = "big-in-hole"
+		}
+		if a == nil || b == nil {
+			continue
+		}
+		sink(a, b, fam, false, r.Intn(2) == 0, 1000000+i)
+	}
 }
